@@ -7,6 +7,7 @@ import (
 	"github.com/tendermint/tendermint/libs/kv"
 
 	"github.com/Oneledger/protocol/action"
+	"github.com/Oneledger/protocol/action/helpers"
 	"github.com/Oneledger/protocol/data/balance"
 	"github.com/Oneledger/protocol/data/governance"
 	"github.com/Oneledger/protocol/data/keys"
@@ -105,6 +106,11 @@ func runWithdraw(ctx *action.Context, signedTx action.RawTx) (bool, action.Respo
 			Log:    governance.ErrProposalNotExists.Wrap(err).Marshal(),
 		}
 		return false, result
+	}
+
+	// funds are withdrawn in positive amounts only
+	if withdrawProposal.WithdrawValue.Value.BigInt().Sign() <= 0 {
+		return helpers.LogAndReturnFalse(ctx.Logger, action.ErrInvalidAmount, withdrawProposal.Tags(), errors.New("withdraw value must be positive"))
 	}
 
 	fundStore := ctx.ProposalMasterStore.ProposalFund
